@@ -192,9 +192,9 @@ func (g *vfGen) overlayInputs() [][]byte {
 	var out [][]byte
 	n := g.pick(300, 6000)
 	for i := 0; i < n; i++ {
-		a := small[g.rng.Intn(len(small))]
-		b := small[g.rng.Intn(len(small))]
-		switch g.rng.Intn(4) {
+		a := small[g.intn(len(small))]
+		b := small[g.intn(len(small))]
+		switch g.intn(4) {
 		case 0: // a then b
 			out = append(out, append(append([]byte{}, a...), b...))
 		case 1: // b written over the tail of a padded header
@@ -202,7 +202,7 @@ func (g *vfGen) overlayInputs() [][]byte {
 			for len(m) < len(b) {
 				m = append(m, 0)
 			}
-			off := g.rng.Intn(len(m) + 1)
+			off := g.intn(len(m) + 1)
 			m = append(m[:off], b...)
 			out = append(out, m)
 		case 2: // byte-wise merge: take b where a is zero
@@ -216,7 +216,7 @@ func (g *vfGen) overlayInputs() [][]byte {
 			}
 			out = append(out, m)
 		default: // text carrier with a embedded
-			t := g.textBytes(g.rng.Intn(40))
+			t := g.textBytes(g.intn(40))
 			out = append(out, append(t, a...))
 		}
 	}
@@ -224,7 +224,7 @@ func (g *vfGen) overlayInputs() [][]byte {
 }
 
 func (g *vfGen) randomScript(maxCalls int, inputs [][]byte) string {
-	n := 1 + g.rng.Intn(maxCalls)
+	n := 1 + g.intn(maxCalls)
 	// paths are valid at the time of the call: track child counts of a shadow tree
 	type sh struct{ kids []*sh }
 	var build func(m *MIME) *sh
@@ -241,10 +241,10 @@ func (g *vfGen) randomScript(maxCalls int, inputs [][]byte) string {
 		// choose a node by random descent
 		path := []string{}
 		cur := shadow
-		depth := g.rng.Intn(5)
+		depth := g.intn(5)
 		for d := 0; d < depth && len(cur.kids) > 0; d++ {
-			k := g.rng.Intn(len(cur.kids))
-			if g.rng.Intn(3) == 0 {
+			k := g.intn(len(cur.kids))
+			if g.intn(3) == 0 {
 				k = 0 // favour freshly added extensions (they sit in front)
 			}
 			path = append(path, strconv.Itoa(k))
@@ -255,24 +255,24 @@ func (g *vfGen) randomScript(maxCalls int, inputs [][]byte) string {
 			p = strings.Join(path, ".")
 		}
 		var pred string
-		switch g.rng.Intn(6) {
+		switch g.intn(6) {
 		case 0:
 			pred = "always"
 		case 1:
 			pred = "never"
 		case 2:
-			pred = fmt.Sprintf("lenGt-%d", g.rng.Intn(64))
+			pred = fmt.Sprintf("lenGt-%d", g.intn(64))
 		case 3:
-			in := inputs[g.rng.Intn(len(inputs))]
-			k := g.rng.Intn(len(in) + 1)
+			in := inputs[g.intn(len(inputs))]
+			k := g.intn(len(in) + 1)
 			if k > 6 {
 				k = 6
 			}
 			pred = "prefix-" + vfHex(in[:k])
 		case 4:
-			in := inputs[g.rng.Intn(len(inputs))]
+			in := inputs[g.intn(len(inputs))]
 			if len(in) > 2 {
-				o := g.rng.Intn(len(in) - 1)
+				o := g.intn(len(in) - 1)
 				pred = "contains-" + vfHex(in[o:o+2])
 			} else {
 				pred = "always"
@@ -280,14 +280,14 @@ func (g *vfGen) randomScript(maxCalls int, inputs [][]byte) string {
 		default:
 			pred = "prefix-" + vfHex(g.bytes(1))
 		}
-		mime := fmt.Sprintf("application/x-verif-%d-%d", i, g.rng.Intn(1000))
-		if g.rng.Intn(8) == 0 {
+		mime := fmt.Sprintf("application/x-verif-%d-%d", i, g.intn(1000))
+		if g.intn(8) == 0 {
 			mime = "text/plain" // extension re-using a built-in name
 		}
 		alias := "~"
-		if g.rng.Intn(2) == 0 {
+		if g.intn(2) == 0 {
 			alias = vfHex([]byte(fmt.Sprintf("application/x-verif-alias-%d", i)))
-			if g.rng.Intn(2) == 0 {
+			if g.intn(2) == 0 {
 				alias += "+" + vfHex([]byte(fmt.Sprintf("x-verif/second-%d", i)))
 			}
 		}
@@ -323,13 +323,13 @@ func vfPathOf(in []byte, lim uint32) []int {
 func (g *vfGen) directedExt(inputs [][]byte, n int) {
 	specials := [][]byte{{}, {0}, []byte("a"), []byte(" "), []byte("PK\x03\x04"), []byte("{}"), []byte("<?xml version=\"1.0\"?><rss")}
 	for i := 0; i < n; i++ {
-		in := inputs[g.rng.Intn(len(inputs))]
+		in := inputs[g.intn(len(inputs))]
 		if i < 40*len(specials) {
 			in = specials[i%len(specials)]
 		}
-		lim := []uint32{0, 3072}[g.rng.Intn(2)]
+		lim := []uint32{0, 3072}[g.intn(2)]
 		path := vfPathOf(in, lim)
-		d := g.rng.Intn(len(path) + 1)
+		d := g.intn(len(path) + 1)
 		p := "r"
 		if d > 0 {
 			var ps []string
@@ -340,20 +340,20 @@ func (g *vfGen) directedExt(inputs [][]byte, n int) {
 		}
 		preds := []string{"always", "never", fmt.Sprintf("lenGt-%d", len(in)), "lenGt-0"}
 		if len(in) > 0 {
-			preds = append(preds, "prefix-"+vfHex(in[:1+g.rng.Intn(min(len(in), 4))]))
+			preds = append(preds, "prefix-"+vfHex(in[:1+g.intn(min(len(in), 4))]))
 		}
 		var calls []string
-		k := 1 + g.rng.Intn(3)
+		k := 1 + g.intn(3)
 		for j := 0; j < k; j++ {
-			pr := preds[g.rng.Intn(len(preds))]
+			pr := preds[g.intn(len(preds))]
 			calls = append(calls, fmt.Sprintf("%s:%s:%s:%s:~", p, pr, vfHex([]byte(fmt.Sprintf("application/x-verif-d%d", j))), vfHex([]byte(".d"))))
-			if g.rng.Intn(3) == 0 {
+			if g.intn(3) == 0 {
 				// extend the extension just added (it is child 0 of p)
 				cp := "0"
 				if p != "r" {
 					cp = p + ".0"
 				}
-				calls = append(calls, fmt.Sprintf("%s:%s:%s:%s:~", cp, preds[g.rng.Intn(len(preds))], vfHex([]byte(fmt.Sprintf("application/x-verif-dd%d", j))), vfHex([]byte(".dd"))))
+				calls = append(calls, fmt.Sprintf("%s:%s:%s:%s:~", cp, preds[g.intn(len(preds))], vfHex([]byte(fmt.Sprintf("application/x-verif-dd%d", j))), vfHex([]byte(".dd"))))
 			}
 		}
 		g.emit(vfOp("xwalk", strings.Join(calls, ";"), in, lim))
@@ -363,8 +363,8 @@ func (g *vfGen) directedExt(inputs [][]byte, n int) {
 func (g *vfGen) genC03() {
 	ins := g.overlayInputs()
 	for _, in := range ins {
-		lims := []uint32{0, 3072, uint32(1 + g.rng.Intn(len(in)+1))}
-		g.emit(vfOp("walk", in, lims[g.rng.Intn(len(lims))]))
+		lims := []uint32{0, 3072, uint32(1 + g.intn(len(in)+1))}
+		g.emit(vfOp("walk", in, lims[g.intn(len(lims))]))
 	}
 	small := ins
 	if len(small) > 200 {
@@ -375,8 +375,8 @@ func (g *vfGen) genC03() {
 	g.directedExt(dirIn, g.pick(1200, 20000))
 	for i := 0; i < g.pick(150, 3000); i++ {
 		sc := g.randomScript(6, small)
-		in := small[g.rng.Intn(len(small))]
-		g.emit(vfOp("xwalk", sc, in, []uint32{0, 3072, 64}[g.rng.Intn(3)]))
+		in := small[g.intn(len(small))]
+		g.emit(vfOp("xwalk", sc, in, []uint32{0, 3072, 64}[g.intn(3)]))
 	}
 	g.genResExt()
 	g.genLimFlip()
@@ -395,8 +395,8 @@ func (g *vfGen) genC14() {
 	for i := 0; i < g.pick(400, 8000); i++ {
 		sc := g.randomScript(12, small)
 		for j := 0; j < 3; j++ {
-			in := small[g.rng.Intn(len(small))]
-			g.emit(vfOp("xwalk", sc, in, []uint32{0, 3072, 8}[g.rng.Intn(3)]))
+			in := small[g.intn(len(small))]
+			g.emit(vfOp("xwalk", sc, in, []uint32{0, 3072, 8}[g.intn(3)]))
 		}
 		// lookups of every registered extension name and alias, and of some built-ins
 		for _, c := range strings.Split(sc, ";") {
